@@ -7,8 +7,8 @@ from pktgen import udp_frame
 
 class Prop(PropBase):
     pid = 'C12'
-    kernels = ['InputPcap_recvPacket', 'InputPcapJumbo_recvPacket', 'InputSock_recvPacket']
-    vo_targets = ['Props/Properties_C12.vo', 'Proofs/InputSafe.vo', 'Model/Worker.vo', 'Proofs/WorkerExit.vo']
+    kernels = ['InputPcap_recvPacket', 'InputPcapJumbo_recvPacket', 'InputSock_recvPacket', 'InputPcap_copy', 'InputSock_copy']
+    vo_targets = ['Props/Properties_C12.vo', 'Proofs/InputSafe.vo', 'Model/Worker.vo', 'Proofs/WorkerExit.vo', 'Proofs/Eq_Copy.vo']
     prop_files = ['Props/Properties_C12.v']
     harness_variants = ['asan', 'asan+epoll']
     defines = {'asan+epoll': ('ENABLE_EPOLL_RECEIVE',)}
